@@ -98,6 +98,44 @@ fn compile_multi<W: Write>(matrix: &[u8], csv_a: &[u8], csv_b: &[u8], w: &mut W,
         b2.resolve().map_err(|e| format!("resolve: {:?}", e))?;
         return b2.compile(w).map_err(|e| format!("compile: {:?}", e));
     }
+    if seq == 9 {
+        // compile(), more rows, resolve(), compile() again on the same builder
+        b.read_lexicon(csv_a).map_err(|e| format!("lexicon: {:?}", e))?;
+        let _ = b.resolve();
+        let mut scratch = Vec::new();
+        let _ = b.compile(&mut scratch);
+        b.read_lexicon(csv_b).map_err(|e| format!("lexicon: {:?}", e))?;
+        b.resolve().map_err(|e| format!("resolve: {:?}", e))?;
+        return b.compile(w).map_err(|e| format!("compile: {:?}", e));
+    }
+    if seq == 10 {
+        // a compile() whose sink fails somewhere, then a second compile() of the same builder into a sound sink
+        b.read_lexicon(csv_a).map_err(|e| format!("lexicon: {:?}", e))?;
+        b.read_lexicon(csv_b).map_err(|e| format!("lexicon: {:?}", e))?;
+        b.resolve().map_err(|e| format!("resolve: {:?}", e))?;
+        let mut probe = Vec::new();
+        b.compile(&mut probe).map_err(|e| format!("compile: {:?}", e))?;
+        // (fail offsets spread over the whole image, dense in its last quarter where the word records and their offsets are)
+        let n = probe.len().max(1);
+        let h = fnv(&probe) as usize;
+        for limit in [h % n, n - 1 - (h / 7) % (n / 4 + 1), n - 1 - (h / 131) % (n / 16 + 1)] {
+            let mut fs = FaultSink { limit, written: 0, short: h % 2 == 0, errors: 0 };
+            if b.compile(&mut fs).is_ok() {
+                return Err(format!("compile: reports success although the sink failed at byte {}", limit));
+            }
+        }
+        return b.compile(w).map_err(|e| format!("compile: {:?}", e));
+    }
+    if seq == 11 {
+        // resolve(), then a read_lexicon() that fails on its last line (error ignored): whatever that read left behind,
+        // compile() ends in a value
+        b.read_lexicon(csv_a).map_err(|e| format!("lexicon: {:?}", e))?;
+        let _ = b.resolve();
+        let mut broken = csv_b.to_vec();
+        broken.extend_from_slice(b"x,y\n");
+        let _ = b.read_lexicon(&broken[..]);
+        return b.compile(w).map_err(|e| format!("compile: {:?}", e));
+    }
     b.read_lexicon(csv_a).map_err(|e| format!("lexicon: {:?}", e))?;
     if seq == 7 {
         b.read_lexicon(csv_b).map_err(|e| format!("lexicon: {:?}", e))?;
@@ -617,13 +655,16 @@ pub fn run(ctx: &Ctx, rep: &mut Report) {
             let cut = 1 + rng.below(lex.entries.len() - 1);
             let part = |r: std::ops::Range<usize>| lex.entries[r].iter().map(|e| lex.row_csv(e, None) + "\n").collect::<String>();
             let (ca, cb) = (part(0..cut), part(cut..lex.entries.len()));
-            for seq in [5u8, 6, 7, 8] {
+            for seq in [5u8, 6, 7, 8, 9, 10, 11] {
                 rep.eval();
                 let mut sink = Vec::new();
                 let what = match seq {
                     5 => "read_lexicon(part 1), resolve(), read_lexicon(part 2), compile()",
                     6 => "read_lexicon(part 1), resolve(), read_lexicon(part 2), resolve(), compile()",
                     8 => "read_conn(a larger 9x11 matrix), read_conn(matrix), read_lexicon, resolve(), compile()",
+                    9 => "read_lexicon(part 1), resolve(), compile() (result dropped), read_lexicon(part 2), resolve(), compile()",
+                    10 => "read_lexicon, resolve(), compile() into sinks that fail at three offsets, compile() into a sound sink",
+                    11 => "read_lexicon(part 1), resolve(), read_lexicon(part 2 + a broken last line; error ignored), compile()",
                     _ => "read_conn(matrix), read_conn(smaller matrix whose text breaks off; error ignored), read_lexicon, resolve(), compile()",
                 };
                 let scen = || json!({"world_index": wi, "call_sequence": what, "matrix": mtext, "lexicon_part_1": ca, "lexicon_part_2": cb});
@@ -631,13 +672,13 @@ pub fn run(ctx: &Ctx, rep: &mut Report) {
                     Err(p) => rep.violation("compile_panic", &p.site, &format!("call sequence {}: {}", what, p.msg), "", scen()),
                     Ok(Err(e)) => {
                         rep.count("longer_call_sequences_rejected", 1);
-                        if seq == 6 || seq == 8 {
+                        if seq == 6 || seq == 8 || seq == 9 || seq == 10 {
                             rep.violation("valid_input_rejected", "DictBuilder::compile", &format!("call sequence {} fails although the same rows compile in one piece: {}", what, clip(&e, 200)), "", scen());
                         }
                     }
                     Ok(Ok(())) => {
                         rep.count("longer_call_sequences_accepted", 1);
-                        if seq == 8 {
+                        if seq == 8 || seq == 9 || seq == 10 {
                             // nothing of the first matrix may survive: same bytes as the plain compilation
                             let mut plain = Vec::new();
                             if compile_to(mtext.as_bytes(), csv.as_bytes(), &mut plain).is_ok() && plain != sink {
